@@ -21,7 +21,7 @@ from typing import Optional
 from ..astutil import calls, text, walk_no_nested
 from ..index import AnalysisError
 from ..report import Ctx
-from .common import bool_atoms
+from .common import bool_atoms, cfg_of
 
 W = 'xmlschema.validators.wildcards.XsdWildcard'
 KINDS = ('N', 'A', 'O', 'L')
@@ -391,4 +391,107 @@ def rule_g(ctx: Ctx) -> None:
     copy_ownership(ctx, 'C16.g')
 
 
-RULES = [rule_a, rule_b, rule_c, rule_d, rule_e, rule_f, rule_g]
+MULTI_PASS_OK = {
+    # (function, parameter) -> (its only caller, callee expression there): the caller is checked to pass a list
+    ('xmlschema.validators.builders.GlobalMaps.build', 'schemas'): ('xmlschema.validators.xsd_globals.XsdGlobals.build', 'self.global_maps.build'),
+}
+
+
+def rule_h(ctx: Ctx) -> None:
+    """A parameter declared `Iterable[...]` may be a one-shot generator (is_restriction passes `(x for x in other.not_qname if …)` to
+    deny_qnames): a function that iterates it at two places on one path sees the second time only what the first left over, so some names
+    are never tested against the namespace constraint.  On every path through the function the parameter is iterated at most once."""
+    rule = 'C16.h'
+    n = 0
+    for f in ctx.idx.iter_functions('validators'):
+        if isinstance(f.node, ast.Lambda):
+            continue
+        its = [a.arg for a in f.node.args.args + f.node.args.kwonlyargs if a.annotation is not None and text(a.annotation).startswith(('Iterable[', 'Iterator[', 'Iterable', 'Iterator'))]
+        if not its:
+            continue
+        ctx.analysed(f.qualname)
+        g = cfg_of(ctx, f)
+        for p in its:
+            sites = []
+            for x in g.nodes:
+                for e in (x.exprs or ([x.ast] if x.kind in ('stmt', 'return') else [])):
+                    for y in ast.walk(e):
+                        if isinstance(y, ast.comprehension) and isinstance(y.iter, ast.Name) and y.iter.id == p:
+                            sites.append((x, y))
+                        elif isinstance(y, ast.Call) and text(y.func) in ('list', 'tuple', 'set', 'sorted', 'any', 'all', 'sum', 'len', 'frozenset', 'next') \
+                                and y.args and isinstance(y.args[0], ast.Name) and y.args[0].id == p:
+                            sites.append((x, y))
+                if x.kind == 'for' and isinstance(x.ast.iter, ast.Name) and x.ast.iter.id == p:
+                    sites.append((x, x.ast))
+            n += 1
+            rebound = any(isinstance(s_, ast.Assign) and any(text(t) == p for t in s_.targets) and isinstance(s_.value, ast.Call) and text(s_.value.func) in ('list', 'tuple', 'set', 'frozenset')
+                          for s_ in ast.walk(f.node))
+            twice = None
+            for a_, _ in sites:
+                after = g.reachable([m for m, lab in g.succ[a_] if lab in 'nTF'], kinds='nTF')
+                for b_, _ in sites:
+                    if b_ is not a_ and b_ in after:
+                        twice = (a_, b_)
+                        break
+                if twice:
+                    break
+            same_node = [x for x in {id(a_): a_ for a_, _ in sites}.values() if sum(1 for a2, _ in sites if a2 is x) > 1]
+            ok = rebound or (twice is None and not same_node)
+            if not ok and (f.qualname, p) in MULTI_PASS_OK:
+                callerq, callee_txt = MULTI_PASS_OK[(f.qualname, p)]
+                cf = ctx.idx.func(callerq)
+                cs = [c for c in calls(cf.node) if text(c.func) == callee_txt and c.args and isinstance(c.args[0], ast.Name)]
+                lists = bool(cs) and all(any(isinstance(s_, ast.Assign) and text(s_.targets[0]) == c.args[0].id and isinstance(s_.value, (ast.List, ast.ListComp, ast.Tuple))
+                                             for s_ in ast.walk(cf.node)) for c in cs)
+                ctx.ob(rule, f'{f.qualname.split(".", 2)[-1]}: `{p}` is iterated twice, its only caller passes a list', f.loc(), lists,
+                       '' if lists else f'{callerq} no longer passes a list display/comprehension', key=f'{f.qualname}|single-pass|{p}', nontrivial=False)
+                continue
+            ctx.ob(rule, f'{f.qualname.split(".", 2)[-1]}: the iterable parameter `{p}` is iterated at most once on every path', f.loc(sites[0][0].ast) if sites else f.loc(), ok,
+                   '' if ok else f'`{p}` is iterated at line {(twice[0] if twice else same_node[0]).lineno} and again at line {(twice[1] if twice else same_node[0]).lineno}: the caller '
+                   'passes a generator, the first pass consumes it up to the first name it rejects and the second pass tests only the rest - a restriction whose base notQName has '
+                   'exactly one name the derived wildcard does not exclude is accepted', key=f'{f.qualname}|single-pass|{p}')
+    ctx.floor(rule, 'iterable parameters in the validators', n, 3)
+    ctx.explain('C16.h: for every parameter annotated Iterable/Iterator in the validators package no iteration site is reachable from another one (unless the parameter is first '
+                'materialised with list()/tuple()/set()).')
+
+
+def rule_i(ctx: Ctx) -> None:
+    """`##other` denotes "every namespace but the absent one and the target namespace of the schema that declares the wildcard".  In the
+    in-place algebra (union, intersection) the two operands may come from schemas with different target namespaces, so wherever a branch
+    uses a target namespace it must be the one of the operand that the path condition knows to be the ##other wildcard."""
+    rule = 'C16.i'
+    n = 0
+    for meth in ('intersection', 'union'):
+        f = ctx.idx.method(W, meth) if 'W' in globals() else ctx.idx.method('xmlschema.validators.wildcards.XsdWildcard', meth)
+        ctx.analysed(f.qualname)
+        g = cfg_of(ctx, f)
+        for x in g.nodes:
+            if x.kind not in ('stmt', 'if', 'return'):
+                continue
+            uses = [y for e in (x.exprs or [x.ast]) for y in ast.walk(e) if isinstance(y, ast.Attribute) and y.attr == 'target_namespace' and isinstance(y.value, ast.Name)
+                    and y.value.id in ('self', 'other', 'w1', 'w2')]
+            if not uses:
+                continue
+            from .common import guards
+            gs = guards(ctx, f, x)
+            known = set()
+            for t, lab in gs:
+                for who in ('self', 'other', 'w1', 'w2'):
+                    if (t == f"'##other' in {who}.namespace" and lab == 'T') or (t == f"'##other' not in {who}.namespace" and lab == 'F'):
+                        known.add(who)
+            if not known:
+                continue
+            for y in uses:
+                # a comparison of the two target namespaces with each other is not a use of one of them as the excluded namespace
+                n += 1
+                ok = y.value.id in known or len(known) > 1
+                ctx.ob(rule, f'XsdWildcard.{meth}: `{text(y)}` (line {y.lineno}) is the target namespace of the operand known to be ##other ({", ".join(sorted(known))})', f.loc(x.ast), ok,
+                       '' if ok else f'on this path `{sorted(known)[0]}` is the ##other wildcard, but the namespace removed/added is `{text(y)}`: for wildcards declared in schemas with '
+                       'different target namespaces the result admits the namespace that ##other excludes and rejects one both operands admit',
+                       key=f'XsdWildcard.{meth}|other-target|{text(y)}|{x.lineno - f.node.lineno}')
+    ctx.floor(rule, 'uses of a target namespace under a known ##other operand', n, 3)
+    ctx.explain('C16.i: in union() and intersection() every use of `<operand>.target_namespace` on a path whose condition establishes which operand is the ##other wildcard refers to '
+                'that operand.')
+
+
+RULES = [rule_a, rule_b, rule_c, rule_d, rule_e, rule_f, rule_g, rule_h, rule_i]
